@@ -93,13 +93,46 @@ func (eng *Engine) VerifyFunction(fn *ssa.Function, con *Contract) (fx *FuncExec
 		pe := env(exit)
 		pe.reach = er
 		fx.bindResults(pe, fn, results)
+		// case splits: conditions over the entry state; each postcondition is proved once per case
+		cases := []struct {
+			name string
+			cond *Term
+		}{{"", ts.True()}}
+		for _, sc := range con.Splits {
+			se := env(fx.entry)
+			t, err := fx.evalClause(sc, se)
+			if err != nil {
+				fx.addObl("shape", "split", err.Error(), er, ts.False())
+				continue
+			}
+			var next []struct {
+				name string
+				cond *Term
+			}
+			for _, c := range cases {
+				next = append(next, struct {
+					name string
+					cond *Term
+				}{c.name + "1", ts.And(c.cond, t)}, struct {
+					name string
+					cond *Term
+				}{c.name + "0", ts.And(c.cond, ts.Not(t))})
+			}
+			cases = next
+		}
 		for _, c := range con.Ensures {
 			t, err := fx.evalClause(c, pe)
 			if err != nil {
 				fx.addObl("shape", "post:"+c.Label, err.Error(), er, ts.False())
 				continue
 			}
-			fx.addObl("post", c.Label, c.Expr, er, t)
+			for _, cs := range cases {
+				lab := c.Label
+				if cs.name != "" {
+					lab += "|case" + cs.name
+				}
+				fx.addObl("post", lab, c.Expr, ts.And(er, cs.cond), t)
+			}
 		}
 		fx.frameObligations(fn, con, er, exit)
 		// canary: the exit must be reachable (contradictory assumptions would prove false)
@@ -200,13 +233,18 @@ func (fx *FuncExec) evalModifies(con *Contract, env *cenv) (locs []location, err
 			return nil, perr
 		}
 		switch {
-		case ex.Kind == "call" && ex.Args[0].Kind == "ident" && ex.Args[0].Name == "contents":
+		case ex.Kind == "call" && ex.Args[0].Kind == "ident" && (ex.Args[0].Name == "contents" || ex.Args[0].Name == "capacity"):
+			// contents(s): elements s[0:len(s)]; capacity(s): elements s[0:cap(s)] (what append may write)
 			v := env.eval(ex.Args[1])
 			s, ok := v.(VSlice)
 			if !ok {
-				cfail("contents(%s): not a slice", ex.Args[1].String())
+				cfail("%s(%s): not a slice", ex.Args[0].Name, ex.Args[1].String())
 			}
-			locs = append(locs, location{key: elemHeapKey(s.elem), ref: s.arr, elems: true, off: s.off, n: s.cap})
+			n := s.len
+			if ex.Args[0].Name == "capacity" {
+				n = s.cap
+			}
+			locs = append(locs, location{key: elemHeapKey(s.elem), ref: s.arr, elems: true, off: s.off, n: n})
 		case ex.Kind == "unary" && ex.Op == "*":
 			v := env.eval(ex.Args[0])
 			p, ok := v.(VPtr)
